@@ -177,6 +177,11 @@ func freePort() string {
 	return l.Addr().String()
 }
 
+// serverEnv: extra environment of the server processes started from here on (e.g. GOMAXPROCS=1: a server on one
+// processor handles its requests one after the other on the same P, so whatever a request leaves behind in per-P
+// state is what the next request finds)
+var serverEnv []string
+
 func startServer(bin, index string, cache, preload bool) (*server, error) {
 	return startServerSized(bin, index, cache, preload, 0)
 }
@@ -193,6 +198,9 @@ func startServerSized(bin, index string, cache, preload bool, maxCache uint64) (
 			args = append(args, "-p")
 		}
 		s.cmd = exec.Command(bin, args...)
+		if len(serverEnv) > 0 {
+			s.cmd.Env = append(os.Environ(), serverEnv...)
+		}
 		s.cmd.Stderr = s.stderr
 		s.cmd.Stdout = s.stderr
 		if err := s.cmd.Start(); err != nil {
@@ -702,7 +710,9 @@ func recordRPC(args []string) error {
 	if err != nil {
 		return err
 	}
+	serverEnv = []string{"GOMAXPROCS=1"}
 	srv, err := startServer(*bin, path, rng.Intn(2) == 0, rng.Intn(2) == 0)
+	serverEnv = nil
 	if err != nil {
 		return err
 	}
